@@ -1,6 +1,8 @@
 // Correspondence + oracle harness for the CIF family (C01): quote/as_string, the CIF writer with every
 // WriteOptions value, BufOstream positions, and the write->read round trip, on the repo's working tree.
 #include "hcommon.hpp"
+#include <gemmi/numb.hpp>
+#include <cstdio>
 #include <sstream>
 #include <algorithm>
 #include <cstdint>
@@ -297,8 +299,15 @@ static std::string handle(const std::string& cmd, const std::string& args) {
   }
   if (cmd == "o_json" || cmd == "o_mmjson") {
     // dump of a document read from mmJSON: raw value, or its string content when it is delimited
-    auto val = [](const std::string& v) {
+    bool numeric_level = (cmd == "o_mmjson");
+    auto val = [numeric_level](const std::string& v) {
       bool delimited = !v.empty() && (v[0] == '\'' || v[0] == '"' || v[0] == ';');
+      if (numeric_level && !delimited && cif::is_numb(v)) {
+        // numeric level: the mmJSON writer may re-spell a number (sign, leading zeros, s.u. stripped)
+        char buf[40];
+        std::snprintf(buf, sizeof buf, "N%.17g", cif::as_number(v));
+        return std::string(buf);
+      }
       return hex_encode(delimited ? cif::as_string(v) : v);
     };
     auto dump = [&](const cif::Document& d) {
